@@ -132,6 +132,7 @@ type Unit struct {
 	epochAlloc    map[int]Term
 	paramAlias    map[string]string
 	closureTerms  map[string]*closureVal
+	pureFnTerms   map[string]string
 	implOf        string
 	coverStatus   string
 }
